@@ -13,6 +13,8 @@
 #include "../lib/instruments.hpp"
 #include "../lib/pwc.hpp"
 #include "../lib/harness.hpp"
+#define VEGAS_MODEL_PROPERTY "C19"
+#include "../lib/vegas_model.hpp"
 
 namespace
 {
@@ -159,6 +161,8 @@ void run_vegas(vf::Ctx& c)
             VF_CHECK(c, same_pdf(chk.results()[k + 1].pdf(), expect), "C19:next-state", "result " << (k + 1) << " does not record the refinement of result " << k
                 << " under alpha = " << vf::show(alpha));
             if (!same_pdf(expect, grid)) { changed = true; }
+            // independent statement: the long double model of the documented refinement (equal shares of the importance)
+            for (std::size_t d = 0; d != grid.dimensions(); ++d) { (void) check_dimension<T>(c, grid, chk.results()[k + 1].pdf(), d, alpha, res.adjustment_data()); }
         }
         // the recorded grid is the grid sampled with
         for (std::size_t i = b0; i != log.cuts[k]; ++i)
@@ -277,6 +281,34 @@ void run_multi(vf::Ctx& c)
             VF_CHECK(c, vf::same_bits(chk.results()[k + 1].channel_weights(), expect), "C19:next-state", "result " << (k + 1) << " records " << vf::show(chk.results()[k + 1].channel_weights())
                 << " which is not the refinement " << vf::show(expect) << " of result " << k);
             if (!vf::same_bits(expect, alpha)) { changed = true; }
+            // independent statement of "derived from the previous one": the documented refinement in long double
+            // (w_i W_i^beta normalised, raised to the minimum weight, normalised again), for the channels that carry information
+            {
+                std::vector<T> const& next = chk.results()[k + 1].channel_weights();
+                std::vector<T> const& data = res.adjustment_data();
+                std::vector<long double> raw(channels, 0.0L);
+                long double norm = 0;
+                for (std::size_t j = 0; j != channels; ++j) { raw[j] = static_cast<long double>(alpha[j]) * std::pow(static_cast<long double>(data[j]), static_cast<long double>(beta)); norm += raw[j]; }
+                if (norm > 0 && std::isfinite(norm))
+                {
+                    std::vector<long double> u(channels, 0.0L);
+                    long double usum = 0, nsum = 0;
+                    for (std::size_t j = 0; j != channels; ++j) { if (raw[j] > 0) { u[j] = std::max<long double>(raw[j] / norm, minw); usum += u[j]; } nsum += next[j]; }
+                    long double const tiny = std::numeric_limits<T>::min();
+                    bool denormal = false;
+                    for (std::size_t j = 0; j != channels; ++j) { if (raw[j] > 0 && raw[j] < tiny * std::ldexp(1.0L, std::numeric_limits<T>::digits)) { denormal = true; } }
+                    VF_CHECK(c, std::fabs(nsum - 1.0L) <= (4.0L + 2.0L * channels) * vf::eps<T>(), "C19:next-state-model", "the weights recorded by result " << (k + 1) << " sum to "
+                        << vf::show<long double>(nsum));
+                    for (std::size_t j = 0; j != channels && !denormal; ++j)
+                    {
+                        if (!(raw[j] > 0)) { continue; }
+                        long double const ref = u[j] / usum;
+                        VF_CHECK(c, std::fabs(static_cast<long double>(next[j]) - ref) <= (8.0L + 2.0L * channels) * vf::eps<T>() * ref + 4 * tiny, "C19:next-state-model", "result " << (k + 1)
+                            << " records weight " << vf::show(next[j]) << " for channel " << j << ", the documented refinement of result " << k << " gives " << vf::show<long double>(ref)
+                            << " (weights " << vf::show(alpha) << ", data " << vf::show(data) << ", beta " << vf::show(beta) << ", minimum " << vf::show(minw) << ")");
+                    }
+                }
+            }
         }
         long double atot = 0;
         std::vector<long double> cum;
